@@ -238,8 +238,20 @@ Fixpoint strike (n : nat) (pre : list sc) (post oq : list sc) (cum last_pos htna
 
 Definition last_tsn (sq : list sc) (d : Z) : Z := match rev sq with c :: _ => c_tsn c | [] => d end.
 
+(* tsn_minus_one(_local_tsn): the last TSN ever assigned.  _local_tsn itself is not part of this
+   model; it is recovered from the queues (or, when both are empty, from the ack points). *)
+Definition highest_assigned (s : tx) : Z :=
+  match rev (sentq s ++ outq s) with
+  | c :: _ => c_tsn c
+  | [] => if uint32_gt (adv_ack s) (last_sacked s) then adv_ack s else last_sacked s
+  end.
+
+(* a SACK older than the last one, or acknowledging TSNs never assigned, is ignored *)
+Definition sack_ignored (s : tx) (cum : Z) : bool :=
+  uint32_gt (last_sacked s) cum || uint32_gt cum (highest_assigned s).
+
 Definition receive_sack (s : tx) (cum : Z) (gaps : list (Z * Z)) (now : Z) : tx * list out :=
-  if uint32_gt (last_sacked s) cum then (s, [])
+  if sack_ignored s cum then (s, [])
   else
     let full := cwnd s <=? flight s in
     let '(sq1, fl1, done, db1) := pop_acked (sentq s) cum (flight s) 0 0 in
